@@ -10,6 +10,16 @@ A *case* is a structural tuple, never source text.  Four families::
     ("imp",  ctx, target, placement, mglob, hglob, hshape)
     ("from", ctx, target, variant, placement, mglob, hglob, hshape)
     ("mod",  how, hglob, hshape)
+    ("seq",  first, placement, second, rvloc, mglob, hglob)
+
+    family "seq" (two statements in sequence, main template WITHOUT any top-level assignment before them): a first
+    statement that passes the live local `loc` to the helper inside a for / with / macro, then, after that scope has
+    ended, a second statement that shows whether `loc` is still visible (it must not be; a render variable of the
+    same name must be back).  first in SEQ_FIRST: "inc" {% include "h" %}, "incw" ... with context,
+    "imp" {% import "h" as m with context %}{{ m.pub() }}, "from" {% from "h" import pub with context %}{{ pub() }};
+    second in SEQ_SECOND: "inc" {% include "h" %}, "from" {% from "h" import pub with context %}{{ pub() }},
+    "direct" {{ loc }} printed by the main template itself; rvloc: render(loc="RL") is passed as well.
+    The helper shape is ("pubm",).
 
     ctx        None (statement default) | "with" | "without"       (… with context / without context)
     ignore     bool                                                  (include … ignore missing)
@@ -64,6 +74,11 @@ INC_TARGETS = ("lit", "lit-warm", "list", "var", "varlist", "obj", "fs", "lit-mi
 IMP_TARGETS = ("lit", "lit-warm", "var", "obj", "fs", "lit-missing")
 FROM_VARIANTS = ("names", "priv", "callmissing")
 HOWS = ("get/module", "get/make_module", "fs/module", "fs/make_module")
+SEQ_FIRST = ("inc", "incw", "imp", "from")
+SEQ_SECOND = ("inc", "from", "direct")
+SEQ_PLACEMENTS = ("for", "with", "macro")
+SEQ_SHAPE = ("pubm",)
+RV_LOC = "RL"
 
 VARS = ("rv", "loc", "eg", "mg", "hg")
 ENV_GLOBALS = {"eg": "E"}
@@ -127,6 +142,13 @@ def _all_cases(bound):
                     for ctx in CTXS:
                         for ignore in (False, True):
                             yield ("inc", ctx, ignore, target, placement, mglob, hglob, shape)
+    # two statements in sequence: does a local passed to the first leak into the second?
+    for mglob, hglob in globs:
+        for placement in SEQ_PLACEMENTS:
+            for first in SEQ_FIRST:
+                for second in SEQ_SECOND:
+                    for rvloc in (False, True):
+                        yield ("seq", first, placement, second, rvloc, mglob, hglob)
     # import ... as m
     for shape in shapes:
         for mglob, hglob in globs:
@@ -181,6 +203,10 @@ def _fields(case):
     if fam == "mod":
         _, how, hglob, shape = case
         return dict(fam=fam, how=how, hglob=hglob, shape=tuple(shape), mglob=False)
+    if fam == "seq":
+        _, first, placement, second, rvloc, mglob, hglob = case
+        return dict(fam=fam, first=first, second=second, rvloc=rvloc, placement=placement, mglob=mglob, hglob=hglob,
+                    shape=SEQ_SHAPE, ctx="with", ignore=False, target="lit", variant=None)
     raise ValueError(case)
 
 
@@ -292,9 +318,33 @@ def _use_from(shape, variant):
     return "|".join(parts)
 
 
+_SEQ_STMT = {
+    "inc": '{% include "h" %}',
+    "incw": '{% include "h" with context %}',
+    "imp": '{% import "h" as m with context %}{{ m.pub() }}',
+    "from": '{% from "h" import pub with context %}{{ pub() }}',
+    "direct": "{{ loc }}",
+}
+
+
+def _seq_source(f):
+    x = _SEQ_STMT[f["first"]]
+    y = _SEQ_STMT[f["second"]]
+    pl = f["placement"]
+    if pl == "for":
+        return 'M[{% for loc in ["L1", "L2"] %}' + x + ";{% endfor %}|" + y + "]"
+    if pl == "with":
+        return 'M[{% with loc = "W" %}' + x + "{% endwith %}|" + y + "]"
+    if pl == "macro":
+        return "{% macro mm(loc) %}" + x + '{% endmacro %}M[{{ mm("M") }}|' + y + "]"
+    raise ValueError(pl)
+
+
 def main_source(case):
     f = _fields(case)
     fam = f["fam"]
+    if fam == "seq":
+        return _seq_source(f)
     tx = _target_expr(f["target"])
     if fam == "inc":
         x = "{% include " + tx + (" ignore missing" if f["ignore"] else "") + _ctx_words(f["ctx"]) + " %}"
@@ -333,6 +383,8 @@ def to_templates(case):
         return src, None, {}
     src["main"] = main_source(case)
     data = dict(RENDER_VARS)
+    if f.get("rvloc"):
+        data["loc"] = RV_LOC
     hg = dict(HELPER_GLOBALS) if f["hglob"] else None
     t = f["target"]
     if t == "var":
@@ -476,6 +528,30 @@ def module_values(shape, vis):
     return vals
 
 
+def _expected_seq(f):
+    hglob = f["hglob"]
+    base = dict(ENV_GLOBALS)
+    if f["mglob"]:
+        base.update(MAIN_GLOBALS)
+    base.update(RENDER_VARS)
+    if f["rvloc"]:
+        base["loc"] = RV_LOC
+
+    def show(stmt, vis):
+        hvis = visible("with", vis, None, None)
+        if stmt in ("inc", "incw"):
+            return helper_body(SEQ_SHAPE, hvis, hglob)
+        if stmt in ("imp", "from"):
+            return module_values(SEQ_SHAPE, hvis)["pub"]
+        return vis.get("loc", "")  # "direct"
+
+    pieces = [show(f["first"], dict(base, loc=loc)) for loc in LOCS[f["placement"]]]
+    first = "".join(p + ";" for p in pieces) if f["placement"] == "for" else pieces[0]
+    # the scope of the local has ended: the second statement sees the render variable again (docs
+    # "Import Context Behavior": the *current* context is passed; scoping of for / with / macro arguments)
+    return "M[" + first + "|" + show(f["second"], base) + "]"
+
+
 def expected(case):
     f = _fields(case)
     shape = f["shape"]
@@ -497,6 +573,8 @@ def expected(case):
             obs["ifv"] = vals["ifv"]
         return obs
     fam, target, ctx = f["fam"], f["target"], f["ctx"]
+    if fam == "seq":
+        return _expected_seq(f)
     if fam == "from" and f["variant"] == "priv":
         # docs "Import": names starting with underscores are private and cannot be imported
         return ("exc", "TemplateAssertionError")
